@@ -143,6 +143,36 @@ def core_stack_checksums(tier, seed):
       v.payload = ip(17, udp(5000, 6000, data))
       return check_roundtrip(eth(0x8100, v))
     yield ("vlan udp len=%d" % n, vlan_case)
+  # TCP option stacks of every packed length modulo 4 (the header is padded to a multiple of 4 and the data offset must count
+  # the padding; added 2026-09-25 after seeded change C14_8 computed the offset before padding - the only stack used until
+  # then, MSS + NOP + WSOPT, is 8 bytes long)
+  O = pkt.tcp_opt
+  stacks = {"none": [], "nop": [(O.NOP, None)], "sackperm": [(O.SACKPERM, None)], "wsopt": [(O.WSOPT, 7)], "mss": [(O.MSS, 536)],
+            "mss+wsopt": [(O.MSS, 1460), (O.WSOPT, 2)], "tsopt": [(O.TSOPT, (1, 0xffffffff))],
+            "mss+sackperm+tsopt+nop+wsopt": [(O.MSS, 1460), (O.SACKPERM, None), (O.TSOPT, (7, 9)), (O.NOP, None), (O.WSOPT, 14)]}
+  for name, stack in sorted(stacks.items()):
+    for n in (0, 1, 5, 64):
+      def opt_case(stack=stack, n=n):
+        data = bytes(range(1, n + 1))
+        t = pkt.tcp(srcport=4000, dstport=80, seq=1, ack=2, win=3, flags=0x18)
+        t.options = [O(ty, v) for ty, v in stack]
+        t.payload = data
+        e = eth(0x800, ip(6, t))
+        r = check_roundtrip(e)
+        if r:
+          return r
+        t2 = pkt.ethernet(raw=e.pack()).find("tcp")
+        packed = sum(len(O(ty, v).pack()) for ty, v in stack)
+        want_hdr = 20 + (packed + 3) // 4 * 4
+        if t2.off * 4 != want_hdr:
+          return "data offset %d words, header with %d option bytes occupies %d bytes" % (t2.off, packed, want_hdr)
+        if t2.next != data:
+          return "payload after the options is %r, built with %r" % (t2.next, data)
+        got = [(o.type, o.val) for o in t2.options if o.type not in (O.EOL,) ][:len(stack)]
+        if got != [(ty, v) for ty, v in stack]:
+          return "options parse back as %r" % (got,)
+        return None
+      yield ("tcp options %s payload=%d" % (name, n), opt_case)
   def unreach_case():
     inner = ip(17, udp(1, 2, b"abcdefgh"))
     un = pkt.unreach()
